@@ -364,6 +364,8 @@ class Engine:
             return True
         if self._search_loop(it, node, env):
             return True
+        if self._flatten_loop(it, node, env):
+            return True
         stmt, tests = node.body[0], []
         if isinstance(stmt, ast.If) and not stmt.orelse and len(stmt.body) == 1:
             tests, stmt = [stmt.test], stmt.body[0]
@@ -398,6 +400,68 @@ class Engine:
                     dc["result"] = target
             return True
         return False
+
+    @staticmethod
+    def _flatten_shape(node: ast.For) -> bool:
+        inner = node.body[0] if len(node.body) == 1 else None
+        return isinstance(inner, ast.For) and isinstance(inner.iter, ast.Name) and isinstance(node.target, ast.Name) \
+            and inner.iter.id == node.target.id
+
+    def _nested_for_as_chain(self, it: Interp, node: ast.For, env: Env):
+        """`for a in S: for b in f(a): BODY` (BODY not mentioning `a`, no break / else) runs BODY for the same values in the
+        same order as `for b in chain.from_iterable(f(a) for a in S): BODY` - the generator is consumed lazily, so `f(a)` is
+        evaluated at the same points.  Returns the single-loop form (its iterable pre-evaluated), or None."""
+        if node.orelse or len(node.body) != 1 or not isinstance(node.body[0], ast.For) or not isinstance(node.target, ast.Name):
+            return None
+        inner = node.body[0]
+        if inner.orelse or getattr(inner, "is_async", False):
+            return None
+        outer_var = node.target.id
+        for stmt in inner.body:
+            for sub in ast.walk(stmt):
+                if isinstance(sub, ast.Break) or (isinstance(sub, ast.Name) and sub.id == outer_var):
+                    return None
+        for sub in ast.walk(inner.target):
+            if isinstance(sub, ast.Name) and sub.id == outer_var:
+                return None
+        if any(isinstance(n, (ast.Await, ast.Yield, ast.YieldFrom)) for n in ast.walk(inner.iter)):
+            return None
+        gen = ast.GeneratorExp(elt=inner.iter, generators=[ast.comprehension(target=node.target, iter=node.iter, ifs=[], is_async=0)])
+        ast.copy_location(gen, node)
+        ast.fix_missing_locations(gen)
+        try:
+            src = it.eval(gen, env)
+            flat = lib.LIB["itertools.chain.from_iterable"](it, LibV("itertools.chain.from_iterable"), CallArgs([src]), node)
+        except Unsupported:
+            return None
+        name = f"$flat@{node.lineno}"
+        env.vars[name] = flat
+        new = ast.For(target=inner.target, iter=ast.Name(id=name, ctx=ast.Load()), body=inner.body, orelse=[], type_comment=None)
+        ast.copy_location(new, node)
+        ast.fix_missing_locations(new)
+        return new
+
+    def _flatten_loop(self, it: Interp, node: ast.For, env: Env) -> bool:
+        """`for a in S: for b in a: L.append(b)` is `L.extend(chain.from_iterable(S))` (T-COLL: concatenation in order)."""
+        inner = node.body[0]
+        if not (isinstance(node.target, ast.Name) and isinstance(inner, ast.For) and not inner.orelse and len(inner.body) == 1
+                and isinstance(inner.target, ast.Name) and isinstance(inner.iter, ast.Name) and inner.iter.id == node.target.id):
+            return False
+        stmt = inner.body[0]
+        if not (isinstance(stmt, ast.Expr) and isinstance(stmt.value, ast.Call) and isinstance(stmt.value.func, ast.Attribute)
+                and stmt.value.func.attr == "append" and isinstance(stmt.value.func.value, ast.Name)
+                and len(stmt.value.args) == 1 and not stmt.value.keywords
+                and isinstance(stmt.value.args[0], ast.Name) and stmt.value.args[0].id == inner.target.id):
+            return False
+        target = env.lookup(stmt.value.func.value.id)
+        if target is None or lib._cname(it, target) != "list":
+            return False
+        src = it.eval(node.iter, env)
+        if lib.seq_view(it, src) is None:
+            return False
+        flat = lib.LIB["itertools.chain.from_iterable"](it, LibV("itertools.chain.from_iterable"), CallArgs([src]), node)
+        lib.LIB["list.extend"](it, LibV("list.extend", target), CallArgs([flat]), node)
+        return True
 
     def _search_loop(self, it: Interp, node: ast.For, env: Env) -> bool:
         """`for x in S: if c(x): return [v]` (nothing else in the loop, v not depending on x) is `if any(c(x) for x in S):
@@ -473,6 +537,10 @@ class Engine:
                 if not broke and node.orelse:
                     it.exec_block(node.orelse, env)
                 return
+        if is_for and conc is None and not self._flatten_shape(node):
+            flat = self._nested_for_as_chain(it, node, env)
+            if flat is not None:
+                return self.loop(it, flat, env)
         c = st.contract
         spec = c.loop_spec(it, node, env) if c is not None else None
         if spec is None and is_for and self._accumulation_loop(it, node, env):
